@@ -46,3 +46,8 @@ func (db *DB) VerifReadValuePtr(encoded []byte) ([]byte, error) {
 
 // VerifCommitQueueLen returns the number of commit requests waiting in the commit queue.
 func (db *DB) VerifCommitQueueLen() int64 { return atomic.LoadInt64(&db.commitQueue.queueLen) }
+
+// VerifCommitQueueItems returns the number of wake-up tokens published for queued commit
+// requests (a request is only visible to the commit worker's drain loop once its token is
+// published, which happens right after queueLen is incremented).
+func (db *DB) VerifCommitQueueItems() int { return len(db.commitQueue.items) }
